@@ -43,7 +43,8 @@ pub fn replay_dump(
 ) -> String {
     let mut nd = KaniNd;
     let (i, _b) = build(&mut nd, code, ops, shape);
-    let mut ax = any_state_with(bounded_values);
+    let corners = matches!(code.mnemonic(), iced_x86::Mnemonic::Div | iced_x86::Mnemonic::Idiv);
+    let mut ax = any_state_with(bounded_values, corners);
     ax.state.regs[0] = i.next_ip();
     let pre = ax;
     let s = spec::exec(&i, &pre.state, pre.stack_top, StackConv::Hardware);
